@@ -70,7 +70,11 @@ class Scenario:
         from ovld.types import class_check
 
         self.k, self.bad_kind, self.bad_pos = k, bad_kind, bad_pos
-        self.classes = [type(f"B{i}", (), {}) for i in range(k + 1)]
+        self.classes = []
+        for i in range(k + 1):
+            # chains of subclasses (so that call_next has somewhere to go) mixed with unrelated classes
+            base = (self.classes[rng.randrange(i)],) if i and i < k and rng.random() < 0.6 else ()
+            self.classes.append(type(f"B{i}", base, {}))
         self.raise_flag = [False]
         glb = {"call_next": call_next, "recurse": recurse, "__name__": "verif_build"}
         for i, c in enumerate(self.classes):
@@ -78,7 +82,8 @@ class Scenario:
         self.glb = glb
         self.fns = []
         for i in range(k):
-            body = f"return ('m', {i})" if rng.random() < 0.6 else f"return ('m', {i}, recurse)"
+            r = rng.random()
+            body = f"return ('m', {i})" if r < 0.4 else f"return ('m', {i}, recurse)" if r < 0.6 else f"return ('m', {i}, call_next(x))"
             self.fns.append(mk_fn(f"m{i}", body, f"x: B{i}", glb))
         flag = self.raise_flag
 
@@ -120,10 +125,16 @@ class Scenario:
         return [c() for c in self.classes]
 
 
-def call(ov, arg):
+def canon(r):
+    if isinstance(r, tuple):
+        return tuple(canon(x) for x in r)
+    return "<callable>" if callable(r) else r
+
+
+def call(ov, arg, route="obj"):
     try:
-        r = ov(arg)
-        return ("ok", r[:2] if isinstance(r, tuple) else repr(r))
+        r = (ov if route == "obj" or not hasattr(ov, "dispatch") else ov.dispatch)(arg)
+        return ("ok", canon(r))
     except Injected:
         return ("injected",)
     except BaseException as e:  # noqa
@@ -256,7 +267,9 @@ def run_injected(rng, out, orc, known, nmax):
     complete = list(ov.defns.values())
     tags_now = [sc.fns.index(f) for f in complete]
     ref = reference(sc, tags_now, probes, False)
-    got = [call(ov, p) for p in probes]
+    route = rng.choice(["obj", "fn"])
+    wit["route"] = route
+    got = [call(ov, p, route) for p in probes]
     o = orc("C18")
     o["n"] += 1
     o["nontrivial"] += 1
@@ -361,6 +374,14 @@ def worker(payload):
         e = o["known"].setdefault(key, {"count": 0, "witness": witness})
         e["count"] += 1
 
+    # correspondence with the Lean build state machine (layer I)
+    import corr_i
+
+    stats, diffs, unsafe = corr_i.run(seed + 1, max(4, n // 2))
+    out["corr"].extend(diffs[:3])
+    for kx, v in stats.items():
+        out["hist"]["layer I: " + kx] = v
+    out["hist"]["layer I: states the model calls unsafe (all in the D34 window)"] = len(unsafe)
     for i in range(n):
         out["ops"] += 1
         if i % 2 == 0:
